@@ -109,6 +109,16 @@ def replace_typevars(ty: t.Any,
         return replacements.get(ty, ty)
     if isinstance(ty, t.Sequence) and not isinstance(ty, (str, bytes)):
         return type(ty)(replace_typevars(t, replacements) for t in ty)  # type: ignore
+    if isinstance(ty, t.Mapping):
+        # struct-like type: {'field': type}
+        return type(ty)({k: replace_typevars(v, replacements) for (k, v) in ty.items()})  # type: ignore
+    if isinstance(ty, type) and '__pane_boundvars__' in ty.__dict__:
+        # subscripted generic dataclass (a real subclass, which typing.get_args can't see into)
+        bound = ty.__dict__['__pane_boundvars__']
+        args = tuple(replace_typevars(v, replacements) for v in bound.values())
+        if all(new is old for (new, old) in zip(args, bound.values())):
+            return ty
+        return ty.__dict__['__origin__'][args]
 
     base = t.get_origin(ty) or ty
     args = t.get_args(ty)
